@@ -4,7 +4,7 @@
    an explicit Panic site). *)
 From Coq Require Import List ZArith NArith.
 Import ListNotations.
-Require Import YF.C08_Requests.
+Require Import YF.C08_Requests YF.C08_Sites YF.Generated.PanicSitesC08.
 
 (* JSON-RPC: for EVERY method and EVERY "params" member (missing, null, not an array, an array of any JSON
    values with any option object), with or without epochs loaded, the handler never panics *)
@@ -32,6 +32,21 @@ Proof. exact grpc_window_always_returns. Qed.
 Theorem C08_api_never_panics : forall r s, api_handle true r <> ApiPanic s.
 Proof. exact api_never_panics. Qed.
 
+(* index-accelerated StreamTransactions: a transaction without the optional position index is answered with a
+   status, not dereferenced; getBlock: a reward commission that is not a number does not panic *)
+Theorem C08_grpc_position_index_checked : forall position s, grpc_buffer_add true position <> GPanic s.
+Proof. exact grpc_position_index_checked. Qed.
+Theorem C08_reward_commission_checked : forall is_number s, reward_commission true is_number <> RPanic s.
+Proof. exact reward_commission_checked. Qed.
+
+(* THE TIE TO THE SOURCE: coq/Generated/PanicSitesC08.v is regenerated from the repository on every check and lists
+   every expression of the request-handling files that can make the Go runtime panic (index, slice, unchecked type
+   assertion, pointer dereference, input-sized make, division, panic / Must* call). Every one of them is classified in
+   C08_Sites.site_table as guarded by one of the theorems above or as unable to fail for a stated local reason, and
+   every Guarded entry names an existing theorem. A new site makes this theorem fail to build: "new crash site, no proof". *)
+Theorem C08_every_listed_site_is_classified : unclassified panic_sites_c08 = [] /\ bad_guards = [].
+Proof. vm_compute. split; reflexivity. Qed.
+
 (* the guards are necessary (pinned behaviour refuted by witnesses) *)
 Theorem C08_missing_params_refuted :
   handle false true MGetBlock PMissing = RPanic 1 /\ handle false true MGetTransaction PMissing = RPanic 2 /\
@@ -51,6 +66,10 @@ Theorem C08_slot_range_refuted :
 Proof. exact (conj grpc_range_end_before_start_panics_when_unbounded (conj grpc_range_far_end_panics_when_unbounded grpc_range_default_end_wraps_when_unbounded)). Qed.
 Theorem C08_flush_walk_refuted : grpc_stream_window true false 1 0 true 0 (Some 36028797018963968%N) = GSpins.
 Proof. exact grpc_window_spins_when_walking_every_slot. Qed.
+Theorem C08_absent_position_index_refuted : grpc_buffer_add false None = GPanic 15.
+Proof. exact grpc_absent_position_index_panics_when_unchecked. Qed.
+Theorem C08_reward_commission_refuted : reward_commission false false = RPanic 16.
+Proof. exact reward_commission_panics_when_unchecked. Qed.
 Theorem C08_api_unguarded_search_refuted : api_handle false (ApiSig true 0 false) = ApiPanic 14.
 Proof. exact api_unguarded_search_panics. Qed.
 
@@ -66,6 +85,11 @@ Print Assumptions C08_grpc_slot_range_never_panics.
 Print Assumptions C08_grpc_window_always_returns.
 Print Assumptions C08_flush_walk_refuted.
 Print Assumptions C08_api_never_panics.
+Print Assumptions C08_grpc_position_index_checked.
+Print Assumptions C08_reward_commission_checked.
+Print Assumptions C08_every_listed_site_is_classified.
+Print Assumptions C08_absent_position_index_refuted.
+Print Assumptions C08_reward_commission_refuted.
 Print Assumptions C08_slot_range_refuted.
 Print Assumptions C08_api_unguarded_search_refuted.
 Print Assumptions C08_missing_params_refuted.
